@@ -6,30 +6,40 @@ import graphcap
 import vlib
 
 PROPS = "Props/C10.v"
-RULE = ("tie P (program capture): for every frame with (h+1)(w+1) <= 12 (0-sized and 1xN included) x single_cycle "
-        "on/off x use_graph_primitive True/False/None(config) x first-variable offset x edge form (variables straight "
-        "from BoolGridFrame, allocated by the model itself; the same passed as trees; ~v; v & w; Python True/False; "
-        "mixed) the real active_edges_connected_crossable / active_edges_single_cycle_crossable is run on a real "
-        "Solver and the posted declarations, the constraint trees in posting order, the G_AVC operand list and the two "
-        "returned arrays (+ shapes) must equal those of the extracted post_crossable, token for token; a malformed "
-        "stream puts IntExpr / int / None entries in the arrays (TypeError on both sides).  search: for every frame "
-        "up to 2x2 (thorough 2x3 / 3x2, 1x5) and every subset of segments, satisfiability of the really posted "
-        "non-primitive program (own z3 translation, pattern fixed) and the values forced on the two returned arrays "
-        "vs an oracle written from the property text (segments as pairs of lattice points, union-find of strands); "
-        "primitive route: the non-graph constraints by z3, the posted GRAPH_ACTIVE_VERTICES_CONNECTED node evaluated "
-        "as connectivity of its decoded operands.  A case is non-trivial when it is a distinct (frame, options, "
-        "edge form) capture or a distinct (frame, options, pattern) decision.")
+RULE = ("tie P (program capture): for every frame with (h+1)(w+1) <= 12 (thorough 16; 0-sized and 1xN included) x "
+        "single_cycle on/off x use_graph_primitive True/False/None(config) x first-variable offset x edge form "
+        "(variables straight from BoolGridFrame, allocated by the model's own new_frame; the same passed as trees; ~v; "
+        "v & w; Python True/False; mixed) the real active_edges_connected_crossable / "
+        "active_edges_single_cycle_crossable is run on a real Solver and the posted declarations, the constraint trees "
+        "in posting order (incl. the whole block posted by _active_vertices_connected, resp. the operand list of the "
+        "GRAPH_ACTIVE_VERTICES_CONNECTED node) and the two returned arrays (+ shapes) must equal those of the extracted "
+        "post_crossable, token for token; the auxiliary graph (node count, edge list in insertion order) is compared "
+        "separately; a malformed stream puts IntExpr / int / None entries in the arrays (TypeError on both sides).  "
+        "search: for every frame up to 2x2 plus 1x3, 0x4 (thorough: 3x1, 2x3, 3x2, 1x4, 4x1, 1x5, 0x6) and every subset "
+        "of segments (frames with more than 12 (thorough 13) segments: every subset obeying the 0/1/2/4 rule + random "
+        "others), satisfiability of the really posted non-primitive program (own z3 translation, pattern fixed) and "
+        "the values forced on the two returned arrays vs an oracle written from the property text (segments as pairs "
+        "of lattice points, union-find of strands); primitive route: the non-graph constraints by z3, the posted "
+        "GRAPH_ACTIVE_VERTICES_CONNECTED node evaluated as connectivity of its decoded operands; the executable form "
+        "of the Coq specification (crossable_spec_b, proved equivalent to crossable_spec) is run against the same "
+        "oracle on every pattern of these frames (kind spec-vs-oracle).  A case is "
+        "non-trivial when it is a distinct (frame, options, edge form) capture or a distinct (frame, options, "
+        "pattern) decision.")
 TRUSTED = [
-    "reading of the property (Graph/Crossable.v: seg, segs_at, deg, degree_rule, continues, strand, crossable_spec): "
-    "horizontal[y, x] is the segment (y,x)-(y,x+1), vertical[y, x] the segment (y,x)-(y+1,x)",
-    "meaning of Op.GRAPH_ACTIVE_VERTICES_CONNECTED = connectivity of the active vertices (external solver)",
-    "Core/Expr.v eval as the ordinary meaning of the expression trees",
+    "reading of the property (Graph/Crossable.v: seg, segs_at, deg, degree_rule, continues, strand, crossable_spec, "
+    "visited, crossing): horizontal[y, x] is the segment (y,x)-(y,x+1), vertical[y, x] the segment (y,x)-(y+1,x) "
+    "(the geometry C14 checks); the harness oracle reads the property text independently",
+    "meaning of Op.GRAPH_ACTIVE_VERTICES_CONNECTED := connectivity of the active vertices (Graph/Avc.v::gsem_avc; the "
+    "external solver is trusted to implement it)",
+    "Core/Expr.v eval as the ordinary meaning of the expression trees; z3 (search only)",
+    "C04's model Graph/Avc.v::post_avc of _active_vertices_connected and its theorems avc_connected_exact / "
+    "avc_primitive / post_avc_succeeds / wt_acts_defined (machine-checked, closed; tied to the source by C04's and "
+    "by this check's program capture)",
 ]
 ASSUMPTIONS = [
-    "the frame's two arrays have the shapes BoolGridFrame gives them ((h+1, w) and (h, w+1)); other shapes are outside the model",
-    "h, w >= 0 Python ints",
-    "crossable_exact is proved for the model's own copy of _active_vertices_connected; its last step uses the "
-    "exactness of that encoding (C04) either as an explicit premise or as proved locally (see Props/C10.v)",
+    "the frame's two arrays have the shapes BoolGridFrame gives them ((h+1, w) and (h, w+1)); other shapes are outside the model (OtherError)",
+    "h, w >= 0; the frame's entries are well-typed boolean trees (Core/Expr.v::wt) over variables declared before the call",
+    "'the caller's variables are not otherwise constrained' = quantification over an arbitrary assignment of the ids below next_id, extended to the fresh ids",
 ]
 
 ERR = {1: "IndexError", 2: "KeyError", 3: "AssertionError", 4: "TypeError", 5: "ValueError",
@@ -192,6 +202,7 @@ def correspond(ctx):
         o = m.call("G %d %d" % (H, W))
         impl = impl_split_graph(h, w)
         ctx.corr("split_graph", (H, W), o.strip(), impl)
+    spec_vs_oracle(ctx)
 
 
 def impl_split_graph(h, w):
@@ -426,9 +437,10 @@ class Session:
 # ------------------------------------------------------------------ search
 
 def search_frames(ctx):
+    quick = [(h, w) for h in range(0, 3) for w in range(0, 3)] + [(1, 3), (0, 4)]
     if ctx.thorough:
-        return [(h, w) for h in range(0, 3) for w in range(0, 3)] + [(2, 3), (3, 2), (1, 4), (4, 1), (1, 5), (0, 6)]
-    return [(h, w) for h in range(0, 3) for w in range(0, 3)] + [(1, 3), (3, 1), (0, 4)]
+        return quick + [(3, 1), (2, 3), (3, 2), (1, 4), (4, 1), (1, 5), (0, 6)]
+    return quick
 
 
 def check_pattern(ctx, sess, fr, h, w, sc, prim, segs, bits, passed, cross):
@@ -514,6 +526,37 @@ def sampled_patterns(ctx, h, w, n_random):
             yield bits
 
 
+def spec_vs_oracle(ctx):
+    """the trusted Coq specification (its executable form crossable_spec_b, proved equivalent to
+    crossable_spec) against the independent oracle, on every pattern of the small frames"""
+    m = ctx.model("C10")
+    for (h, w) in search_frames(ctx):
+        segs = lattice_segments(h, w)
+        if len(segs) > (17 if ctx.thorough else 13):
+            continue
+        pos = {}
+        for i, (sg, d) in enumerate(segs):
+            (y, x) = min(sg)
+            pos[i] = ("h", y * w + x) if d == "h" else ("v", y * (w + 1) + x)
+        nh, nv = (h + 1) * w, h * (w + 1)
+        for sc in (False, True):
+            reqs, exps = [], []
+            for bits in itertools.product([False, True], repeat=len(segs)):
+                hb, vb = ["0"] * nh, ["0"] * nv
+                for i, b in enumerate(bits):
+                    if b:
+                        k, j = pos[i]
+                        (hb if k == "h" else vb)[j] = "1"
+                reqs.append("S %d %d %d %s %s" % (h, w, sc, "".join(hb) or "-", "".join(vb) or "-"))
+                ok, vis, crs = oracle(h, w, [s for s, b in zip(segs, bits) if b], sc)
+                pts = [(y, x) for y in range(h + 1) for x in range(w + 1)]
+                exps.append("%d %s %s" % (ok, "".join("1" if vis[p] else "0" for p in pts),
+                                          "".join("1" if crs[p] else "0" for p in pts)))
+            outs = m.batch(reqs)
+            for r, o, e in zip(reqs, outs, exps):
+                ctx.corr("spec-vs-oracle", r, o, e)
+
+
 def search(ctx):
     for (h, w) in search_frames(ctx):
         nseg = (h + 1) * w + h * (w + 1)
@@ -523,8 +566,8 @@ def search(ctx):
                     full = nseg <= 10
                     nrand = 3000 if (ctx.thorough or ctx.deep) else 500
                 else:
-                    full = nseg <= (17 if ctx.thorough else 12)
-                    nrand = 3000
+                    full = nseg <= (13 if ctx.thorough else 12)
+                    nrand = 20000 if ctx.thorough else 3000
                 search_one(ctx, h, w, sc, prim, None if full else sampled_patterns(ctx, h, w, nrand))
 
 
